@@ -46,6 +46,9 @@ class HidLink:
         self.handles = 0
         self.open_handle = None
         self.transport = []           # ordered transport-level log (C11 oracle)
+        self.wait = None              # kernel hook: wait(d) virtual seconds (threaded world)
+        self.xchg_yield = None        # kernel hook: pre-emption point (request delivered / response delivered)
+        self.latency_fn = None        # (apdu) -> virtual seconds before the answer is readable
 
     # -- seam helpers
     def _seam(self):
@@ -74,6 +77,8 @@ class FakeHidDevice:
         self.wbuf = bytearray()
         self.rqueue = []
         self.pending = None      # fault pending for the read side
+        self.ready_at = 0.0
+        self.first_read_done = False
         self.nonblocking = False
 
     def open_path(self, path):
@@ -125,6 +130,8 @@ class FakeHidDevice:
             return len(data)
         self.wbuf = bytearray()
         apdu = bytes(apdu)
+        if link.xchg_yield is not None:
+            link.xchg_yield("apdu-delivered")
         idx = link.index
         link.index += 1
         link.stats.exchanges += 1
@@ -189,6 +196,8 @@ class FakeHidDevice:
         link.tlog("xchg", idx, apdu, resp, "%04x" % sw)
         framed = wrapCommandAPDU(CHANNEL, bytes(resp) + bytes([sw >> 8, sw & 0xff]), 64)
         self.rqueue = [list(framed[i:i + 64]) for i in range(0, len(framed), 64)]
+        self.first_read_done = False
+        self.ready_at = link.clock.now + (link.latency_fn(apdu) if link.latency_fn else 0.0)
         return len(data)
 
     def read(self, n, timeout_ms=0):
@@ -197,6 +206,11 @@ class FakeHidDevice:
         if not self.opened:
             raise OSError("read error")
         if self.rqueue:
+            if link.wait is not None and self.ready_at > link.clock.now:
+                link.wait(self.ready_at - link.clock.now)
+            elif link.xchg_yield is not None and not self.first_read_done:
+                link.xchg_yield("response-delivered")
+            self.first_read_done = True
             return self.rqueue.pop(0)
         if self.pending == "read_err":
             self.pending = None
@@ -204,7 +218,10 @@ class FakeHidDevice:
         # nothing to deliver: the caller polls until its own deadline; waiting is
         # simulated by letting virtual time pass (nothing else can happen meanwhile
         # in a single-task world; in the threaded world the kernel's hook yields)
-        link.clock.advance(0.5)
+        if link.wait is not None:
+            link.wait(0.5)
+        else:
+            link.clock.advance(0.5)
         return []
 
 
